@@ -4,7 +4,7 @@ from . import parsegen as G
 
 MODEL_FILES = 'ParseDefs.v (cJSON_ParseWithLengthOpts: rnt block, return_parse_end, failure block), LibcNum.v'
 RULE = ('all parser input streams of C01 with and without a return_parse_end argument, both rnt values, plus buffers whose declared length extends beyond the '
-        'first zero byte; verdict: end within [0,n], prefix re-parse equal, rnt success iff value + whitespace + zero byte inside the buffer (independent python '
+        'first zero byte; every byte 0x01..0xFF (alone, doubled, after a blank) as the trailer of complete values before the terminator; a few texts with the k-th allocation request refused through all entry points (position constraints only); verdict: end within [0,n], prefix re-parse equal, rnt success iff value + whitespace + zero byte inside the buffer (independent python '
         'recogniser), failure => end == error position < max(n,1), success => error pointer NULL; non-trivial = distinct input of at least 2 bytes')
 ASSUMPTIONS = ['C locale', 'hand-written transliteration validated by this differential run']
 
